@@ -491,7 +491,7 @@ class Executor:
             try:
                 try:
                     args = setup(ctx)
-                    val = ctx.call(fname, args)
+                    val = fname(ctx, args) if callable(fname) else ctx.call(fname, args)
                     res = PathResult("return", val, list(ctx.pc), list(ctx.trace))
                 except Panic as e:
                     res = PathResult("panic", None, list(ctx.pc), list(ctx.trace), str(e))
@@ -805,8 +805,12 @@ class Ctx:
 
             def getter():
                 v = loc.get()
+                if v is None:
+                    return None
                 if isinstance(v, Agg):
                     if idx >= len(v.fields):
+                        if v.ty is None:
+                            return None
                         raise Unsupported("field %d of %r" % (idx, v))
                     return v.fields[idx]
                 if isinstance(v, Opaque):
@@ -907,8 +911,14 @@ class Ctx:
         name = text
         if ":" in name and not name.startswith("<") and "::" not in name.split(":")[0]:
             pass
+        mo = re.search(r"::(promoted\[\d+\])$", name)
+        if mo and fr is not None and name not in self.program.funcs:
+            name = fr.func.name + "::" + mo.group(1)
         if name in self.const_cache:
             return self.const_cache[name]
+        segs = strip_generics(name)
+        if len(segs) >= 2 and segs[-2] in ENUMS and segs[-1] in ENUMS[segs[-2]]:
+            return Agg(segs[-2], segs[-1], [])
         f = self.program.funcs.get(name)
         if f is None:
             # `const path::NAME` may be printed with a type suffix or trimmed path
